@@ -430,4 +430,25 @@ theorem rpcErrorToNative_cases (code : Int) (s : Bytes) :
     unfold tryExpand at h
     simp [h, describe, hl, sprintf1_splitV hs]
 
+/-! ### the two defects as they were before the repairs (D14 and its follow-up), on the model -/
+
+/-- D14: before the repair `TryExpandError("FLOOD_WAIT_abc")` panicked in `check(Atoi …)` -/
+theorem d14_unrepaired_panics :
+    tryExpandUnrepairedWith Gen.specificErrors [70,76,79,79,68,95,87,65,73,84,95,97,98,99] = .panic "check" := by
+  decide +kernel
+
+/-- … and so did the absent parameter ("FLOOD_WAIT_") and the literal "PHONE_MIGRATE_X" -/
+theorem d14_unrepaired_panics_absent :
+    tryExpandUnrepairedWith Gen.specificErrors [70,76,79,79,68,95,87,65,73,84,95] = .panic "check" ∧
+    tryExpandUnrepairedWith Gen.specificErrors phoneMigrateX = .panic "check" := by
+  decide +kernel
+
+/-- With only the first repair, the literal text "PHONE_MIGRATE_X" (message PHONE_MIGRATE_X, no
+parameter) reached `e.AdditionalInfo.(int)` and panicked there; hence the second repair. -/
+theorem literal_x_unrepaired_panics (dcl : DCList) :
+    tryExpand phoneMigrateX = .ok (phoneMigrateX, .none) ∧
+    processErrUnrepaired dcl phoneMigrateX .none = .panic "(*MTProto).tryToProcessErr" ∧
+    processErr dcl phoneMigrateX .none = .returned := by
+  refine ⟨by decide +kernel, rfl, rfl⟩
+
 end Mtv.Client
